@@ -16,7 +16,7 @@ RULE = ("G1 recursive grammar specs (self-loops, mutual recursion, linear/non-li
         "x*(start) != 0; distinct by case hash")
 ASSUMPTIONS = ["Real/Log judged only on specs with a finite least fixed point and rho_inf(J(x*))<=0.9 (others counted in 'skipped')",
                "Viterbi judged on log-weights <= 0 (finite attained maximum)", "kmax >= 1",
-               "slack = 1e-9*(1+max|x*|); Log bound converted to the real domain: max(x*)*(e^tol-1)/(1-rho)",
+               "slack = 1e-9*(1+max|x*|); Log bound converted to the real domain: max over all nonterminals of x* times (e^tol-1)/(1-rho)",
                "a warning whose message contains 'maximum iteration' is the library's non-convergence warning"]
 ESSENTIAL_LABELS = ['self-loop', 'mutual-recursion', 'linear-recursion', 'nonlinear-recursion', 'weight-one-cycle']
 KINDS = ['real', 'log', 'viterbi', 'bool']
@@ -182,7 +182,10 @@ def check(case, ctx):
                     ctx.violation('nan', f'[{cfg}] {a.tolist()}', **det); continue
                 with np.errstate(over='ignore'):
                     areal = np.exp(a)
-                bound = (scale * math.expm1(tol) / (1 - rho) if method != 'linear' else 0.0) + slack
+                # the stopping rule bounds the *relative* change of every nonterminal's entries, so the absolute
+                # step is bounded by the largest entry of any nonterminal (not just of the start symbol)
+                scale_all = max([float(np.max(np.abs(v))) for v in ref['x'].values() if np.size(v)] + [0.0])
+                bound = (scale_all * math.expm1(tol) / (1 - rho) if method != 'linear' else 0.0) + slack
                 zero_ok = np.all((xstar != 0) | (a == -of.INF))
             else:
                 areal = a
